@@ -9,6 +9,8 @@ can always make progress.  For the deque loops: the helper operations, built fro
 primitives addressed by identity, give a linearisable result wherever a foreign append lands.
 -/
 import Asynkit.Model.Threads
+import Asynkit.Lemmas.C18PosPQ
+import Asynkit.Lemmas.CpyHeap
 
 namespace Asynkit.C18
 open Asynkit.Threads
@@ -233,6 +235,120 @@ theorem findRemove_keeps_foreign (l : List Nat) (h f : Nat) (hf : f ≠ h) :
   · exact (List.mem_erase_of_ne hf).mpr (by simp)
   · simp
 
+/-! ## `call_pos` on the priority loops
+
+`PrioritySchedulingMixin.call_pos(position, h)` is a compound of three `PosPriorityQueue`
+operations, each of which takes the queue's lock on its own: `call_soon` (`append h`),
+`queue_remove h` (`remove h`) and `queue_insert_pos h position` (`insert position h`).  A foreign
+thread's `call_soon_threadsafe` (`append f`, a regular entry of priority `pf`) can therefore land
+between any two of them.  On the container model (`Model/PosPQ`, boosting disabled), for every
+lawful heap library, every state related to a reference list in which `h` does not occur, every
+`position` and all priorities: wherever the foreign append lands, the pop order of the queue is the
+one of running it entirely before `call_pos` or entirely after. -/
+
+section PriorityCallPos
+variable {H : HeapLib (Entry PV)}
+
+/-- the three locked queue operations of `call_pos(position, h)`; `ph` is `h`'s priority -/
+def callPosOps (position h : Nat) (ph : Rat) : List PosPQ.Op :=
+  [.appendPri h ph, .remove h, .insert position h]
+
+/-- the same with the foreign `append f` landing after the `i`-th of them
+    (`i = 0`: before `call_pos`, `i ≥ 3`: after it) -/
+def callPosOpsWith (position h : Nat) (ph : Rat) (f : Nat) (pf : Rat) (i : Nat) : List PosPQ.Op :=
+  (callPosOps position h ph).take i ++ [.appendPri f pf] ++ (callPosOps position h ph).drop i
+
+/-- what the loop will run, in order, after the operations `ops`: the queue's `__iter__` -/
+def popOrderAfter (H : HeapLib (Entry PV)) (draw : Nat → Rat) (s : PosPQ) (ops : List PosPQ.Op) :
+    List Nat :=
+  (PosPQ.runFrom H draw s ops).1.iter.1
+
+/-- landing after the third operation *is* the foreign-last linearisation -/
+theorem callPosOpsWith_last (position h : Nat) (ph : Rat) (f : Nat) (pf : Rat) (i : Nat)
+    (hi : 3 ≤ i) :
+    callPosOpsWith position h ph f pf i = callPosOps position h ph ++ [.appendPri f pf] := by
+  have h3 : (callPosOps position h ph).length ≤ i := by simp [callPosOps]; omega
+  simp [callPosOpsWith, List.take_of_length_le h3, List.drop_eq_nil_of_le h3]
+
+/-- the pop order when the foreign append lands before the final `insert` (`i ≤ 2`), explicitly:
+    `list.insert(min(position, len + 1), h)` applied to the pop order of "`L`, then `f`" -/
+theorem callPos_priority_order (hl : H.Lawful (Entry.lt PV.lt)) {s : PosPQ} {L : List (Entry PV)}
+    (hr : PosPQ.RP s L) (h0 : s.factor = 0) (draw : Nat → Rat) (position h f : Nat) (ph pf : Rat)
+    (hh : ∀ y ∈ L, y.obj ≠ h) (hfh : f ≠ h) (i : Nat) (hi : i ≤ 2) :
+    popOrderAfter H draw s (callPosOpsWith position h ph f pf i) =
+      (PosPQ.objs (L ++ [⟨{ base := pf, insertedAt := s.nIns }, s.q.seq, f⟩])).insertIdx
+        (min position (L.length + 1)) h := by
+  have hinc0 := (hr.appendPri hl h0 f pf draw).1.r.inc
+  have key : ∀ t, ForeignIn L f pf t →
+      (PosPQ.insert H t position h draw).iter.1 =
+        (PosPQ.objs (L ++ [⟨{ base := pf, insertedAt := s.nIns }, s.q.seq, f⟩])).insertIdx
+          (min position (L.length + 1)) h := by
+    intro t ht
+    obtain ⟨L', _, _, e1, e2⟩ := ht.insert_objs hl position h draw _ ⟨rfl, rfl, rfl, rfl⟩ hinc0
+    rw [e1, e2]
+  match i, hi with
+  | 0, _ =>
+    obtain ⟨t, ht, hF⟩ := callPos_prefix_first hl hr h0 draw h f ph pf hh hfh
+    simp only [popOrderAfter, callPosOpsWith, callPosOps, List.take, List.drop, List.nil_append,
+      List.cons_append, PosPQ.runFrom, PosPQ.step, ht]
+    exact key t hF
+  | 1, _ =>
+    obtain ⟨t, ht, hF⟩ := callPos_prefix_second hl hr h0 draw h f ph pf hh hfh
+    simp only [popOrderAfter, callPosOpsWith, callPosOps, List.take, List.drop, List.nil_append,
+      List.cons_append, PosPQ.runFrom, PosPQ.step, ht]
+    exact key t hF
+  | 2, _ =>
+    obtain ⟨t, ht, hF⟩ := callPos_prefix_third hl hr h0 draw h f ph pf hh
+    simp only [popOrderAfter, callPosOpsWith, callPosOps, List.take, List.drop, List.nil_append,
+      List.cons_append, PosPQ.runFrom, PosPQ.step, ht]
+    exact key _ hF
+
+/-- **`call_pos` on the priority loops is linearisable w.r.t. a foreign `call_soon_threadsafe`**:
+    for every boundary `i` at which the foreign append lands, the pop order equals the one of the
+    foreign-first linearisation (`i ≤ 2`), or the operation sequence *is* the foreign-last
+    linearisation (`i ≥ 3`). -/
+theorem callPos_priority_linearizable (hl : H.Lawful (Entry.lt PV.lt)) {s : PosPQ}
+    {L : List (Entry PV)} (hr : PosPQ.RP s L) (h0 : s.factor = 0) (draw : Nat → Rat)
+    (position h f : Nat) (ph pf : Rat) (hh : ∀ y ∈ L, y.obj ≠ h) (hfh : f ≠ h) (i : Nat) :
+    popOrderAfter H draw s (callPosOpsWith position h ph f pf i) =
+        popOrderAfter H draw s (.appendPri f pf :: callPosOps position h ph) ∨
+    popOrderAfter H draw s (callPosOpsWith position h ph f pf i) =
+        popOrderAfter H draw s (callPosOps position h ph ++ [.appendPri f pf]) := by
+  by_cases hi : i ≤ 2
+  · left
+    have e0 : PosPQ.Op.appendPri f pf :: callPosOps position h ph =
+        callPosOpsWith position h ph f pf 0 := rfl
+    rw [e0, callPos_priority_order hl hr h0 draw position h f ph pf hh hfh i hi,
+      callPos_priority_order hl hr h0 draw position h f ph pf hh hfh 0 (by omega)]
+  · right
+    rw [callPosOpsWith_last position h ph f pf i (by omega)]
+
+/-- no interleaving raises: `remove h` always finds the entry `call_soon` just added (every
+    operation answers `unit`, never `ValueError`) -/
+theorem callPos_priority_no_error (hl : H.Lawful (Entry.lt PV.lt)) {s : PosPQ}
+    {L : List (Entry PV)} (hr : PosPQ.RP s L) (h0 : s.factor = 0) (draw : Nat → Rat)
+    (position h f : Nat) (ph pf : Rat) (hh : ∀ y ∈ L, y.obj ≠ h) (hfh : f ≠ h) (i : Nat) :
+    (PosPQ.runFrom H draw s (callPosOpsWith position h ph f pf i)).2 = [.unit, .unit, .unit, .unit] := by
+  match i with
+  | 0 =>
+    obtain ⟨t, ht, _⟩ := callPos_prefix_first hl hr h0 draw h f ph pf hh hfh
+    simp only [callPosOpsWith, callPosOps, List.take, List.drop, List.nil_append,
+      List.cons_append, PosPQ.runFrom, PosPQ.step, ht]
+  | 1 =>
+    obtain ⟨t, ht, _⟩ := callPos_prefix_second hl hr h0 draw h f ph pf hh hfh
+    simp only [callPosOpsWith, callPosOps, List.take, List.drop, List.nil_append,
+      List.cons_append, PosPQ.runFrom, PosPQ.step, ht]
+  | 2 =>
+    obtain ⟨t, ht, _⟩ := callPos_prefix_undo hl hr h0 draw h ph hh
+    simp only [callPosOpsWith, callPosOps, List.take, List.drop, List.nil_append,
+      List.cons_append, PosPQ.runFrom, PosPQ.step, ht]
+  | n + 3 =>
+    obtain ⟨t, ht, _⟩ := callPos_prefix_undo hl hr h0 draw h ph hh
+    rw [callPosOpsWith_last position h ph f pf (n + 3) (by omega)]
+    simp only [callPosOps, List.cons_append, List.nil_append, PosPQ.runFrom, PosPQ.step, ht]
+
+end PriorityCallPos
+
 /-! ## Non-vacuity -/
 
 /-- a concrete schedule in which the foreign thread is started in the middle of a loop-thread
@@ -244,5 +360,27 @@ example :
     s.q = [10, 20] ∧ s.loopT.todo.length = 0 ∧ s.forT.todo.length = 0 ∧
       s.loopT.cur.isNone = true ∧ s.forT.cur.isNone = true ∧ s.log.map (·.2.id) = [1, 2] := by
   refine ⟨rfl, rfl, rfl, rfl, rfl, rfl⟩
+
+/-- `call_pos` on the priority loops, hypotheses satisfiable: a state reached with CPython's own
+    heap algorithms (`cpyHeap`, lawful by `cpyHeap_lawful`), boosting disabled, related to a
+    two-entry reference list in which the handle `7` does not occur -/
+example : ∃ (s : PosPQ) (L : List (Entry PV)), (cpyHeap (Entry PV)).Lawful (Entry.lt PV.lt) ∧
+    PosPQ.RP s L ∧ s.factor = 0 ∧ L.length = 2 ∧ ∀ y ∈ L, y.obj ≠ 7 := by
+  have hl := cpyHeap_lawful (entryLt_strictWeak pv_strictWeak)
+  have r0 : PosPQ.RP ({ factor := 0 } : PosPQ) [] := ⟨PQ.R.empty, by simp⟩
+  obtain ⟨r1, _, f1⟩ := r0.appendPri hl rfl 1 5 (fun _ => 0)
+  obtain ⟨r2, _, f2⟩ := r1.appendPri hl f1 2 3 (fun _ => 0)
+  exact ⟨_, _, hl, r2, f2, by simp, by simp⟩
+
+/-- ... and a concrete instance, computed with `cpyHeap`: the queue holds `1` (priority 5) and `2`
+    (priority 3); `call_pos(2, 7)` with a foreign `append 8` (priority 4) landing at the
+    boundaries `0 … 4`.  Boundaries 0, 1, 2 give the foreign-first pop order, 3 and beyond the
+    foreign-last one, and the two linearisations differ. -/
+example :
+    let H := cpyHeap (Entry PV)
+    let s := (PosPQ.runFrom H (fun _ => 0) { factor := 0 } [.appendPri 1 5, .appendPri 2 3]).1
+    (List.range 5).map (fun i => popOrderAfter H (fun _ => 0) s (callPosOpsWith 2 7 1 8 4 i)) =
+      [[2, 8, 7, 1], [2, 8, 7, 1], [2, 8, 7, 1], [2, 1, 7, 8], [2, 1, 7, 8]] := by
+  decide +kernel
 
 end Asynkit.C18
